@@ -18,7 +18,31 @@ variable {κ ν : Type} {cmp : κ → κ → Ordering}
     (as multisets): nothing is destroyed twice, nothing stored was destroyed, nothing is lost -/
 theorem spec_destroyed_perm [TransCmp cmp] (ops : List (Op κ ν)) (l : List (κ × ν)) (hs : SM.Sorted cmp l) :
     (destroyed (specRun cmp l ops).2 ++ (specRun cmp l ops).1).Perm (inserted ops ++ l) := by
-  sorry
+  induction ops generalizing l with
+  | nil => simp [specRun, destroyed, inserted]
+  | cons op ops ih =>
+    cases op with
+    | ins k v =>
+      have h := ih (SM.insert cmp l k v) (SM.sorted_insert hs k v)
+      simp only [specRun, specStep, destroyed, inserted, List.append_assoc]
+      refine (h.append_left _).trans ?_
+      refine List.perm_append_comm_assoc _ _ _ |>.trans ?_
+      refine ((SM.perm_insert hs k v).append_left _).trans ?_
+      exact List.perm_middle
+    | rem k =>
+      have h := ih (SM.erase cmp l k) (SM.sorted_erase hs k)
+      simp only [specRun, specStep, destroyed, inserted, List.append_assoc]
+      refine (h.append_left _).trans ?_
+      refine List.perm_append_comm_assoc _ _ _ |>.trans ?_
+      exact (SM.perm_erase hs k).append_left _
+    | get k => simpa only [specRun, specStep, destroyed, inserted] using ih l hs
+    | each j => simpa only [specRun, specStep, destroyed, inserted] using ih l hs
+    | clear =>
+      have h := ih [] (by simp [SM.Sorted])
+      simp only [specRun, specStep, destroyed, inserted, List.append_assoc]
+      rw [List.append_nil] at h
+      exact (h.append_left l).trans List.perm_append_comm
+    | count => simpa only [specRun, specStep, destroyed, inserted] using ih l hs
 
 /-- the same for the three implementations, from the empty tree -/
 theorem bst_destroyed_perm [TransCmp cmp] (ops : List (Op κ ν)) :
